@@ -21,7 +21,7 @@ LEVEL = "proof"
 RULE = ("index = 0-12 stanzas from the Debian control-file grammar: random field order, multi-line fields (Description, "
         "Depends continuation), optional fields, extra fields whose names are prefixes/extensions of the interesting ones "
         "(Package-Type, Installed-Size, Original-Maintainer, Filename-Extra, Sizes, Checksums-Md5x), Source with and without a "
-        "version, 1-3 blank separator lines, missing final newline, 1-4 checksum sections per Sources stanza, stanzas without "
+        "version (with and without epoch), values containing ':' (epoch in Filename, Directory, file names), 1-3 blank separator lines, missing final newline, 1-4 checksum sections per Sources stanza, stanzas without "
         "Filename/Size (must be skipped); written in a random supported compression (and sometimes padded above 1 MiB to take the "
         "mmap path); four filter sets and ignore_errors paths; three-way comparison: real PackagesParser/SourcesParser.parse(), the "
         "Lean line-machine model, and an independent stanza-based reference parser; non-trivial+distinct = distinct indices with >= 2 "
@@ -39,11 +39,12 @@ def gen_packages(rng):
         want_fn = rng.random() < 0.9
         want_sz = rng.random() < 0.93
         if want_fn:
-            fields.append(("Filename", f"pool/main/{name[0]}/{name}/{name}_{k}_amd64.deb"))
+            epoch = rng.choice(["", "", "", "", "1:", "2:3:"])  # a literal epoch in the file name: the value contains ':'
+            fields.append(("Filename", f"pool/main/{name[0]}/{name}/{name}_{epoch}{k}_amd64.deb"))
         if want_sz:
             fields.append(("Size", str(rng.choice([0, 1, 7, 1234, 99999]) if rng.random() < 0.15 else rng.randint(1, 10 ** 6))))
         if rng.random() < 0.4:
-            fields.append(("Source", rng.choice(SRCS) + (f" ({rng.randint(1, 3)}.{rng.randint(0, 9)}-1)" if rng.random() < 0.5 else "")))
+            fields.append(("Source", rng.choice(SRCS) + (f" ({rng.choice(['', '', '1:'])}{rng.randint(1, 3)}.{rng.randint(0, 9)}-1)" if rng.random() < 0.5 else "")))
         hs = rng.sample([("MD5sum", "d41d8cd9"), ("SHA1", "da39a3ee"), ("SHA256", "e3b0c442"), ("SHA512", "cf83e135"), ("MD5Sum", "0cc175b9")], rng.randint(0, 3))
         fields += hs
         extras = [("Description", "short text\n longer text line\n .\n last line"), ("Depends", "libc6 (>= 2.3),\n libfoo"),
@@ -59,8 +60,9 @@ def gen_sources(rng):
     stanzas = []
     for k in range(rng.randint(0, 8)):
         name = rng.choice(SRCS + ["srcD"])
-        d = f"pool/main/{name[0]}/{name}"
-        files = [(f"{name}_{k}.dsc", rng.randint(1, 5000)), (f"{name}_{k}.orig.tar.gz", rng.randint(1, 10 ** 6))]
+        d = f"pool/main/{name[0]}/{name}" + rng.choice(["", "", "", ":x"])
+        ep = rng.choice(["", "", "", "1:"])
+        files = [(f"{name}_{ep}{k}.dsc", rng.randint(1, 5000)), (f"{name}_{k}.orig.tar.gz", rng.randint(1, 10 ** 6))]
         if rng.random() < 0.5:
             files.append((f"{name}_{k}.debian.tar.xz", rng.randint(1, 90000)))
         fields = [("Package", name), ("Binary", f"{name}-bin, {name}-dev"), ("Version", f"{k}.1")]
